@@ -43,7 +43,7 @@ def check(ctx, tier):
     viewrules.slice_normalisation(ctx, tk, "C03.h")
     viewrules.column_units(ctx, tk, "C03.h")
     from .. import hazards as _hz, scopes as _sc
-    _hz.generic(ctx, tk, "C03.z", _sc.scope(tk, "C03"))
+    _hz.generic(ctx, tk, "C03.z", _sc.scope(tk, "C03", depth=2))
     return {}
 
 
